@@ -10,23 +10,35 @@ from common import hx
 
 ID = "C17"
 LEAN_MODEL_TARGETS = ["drv_c17"]
-LEAN_PROOF_TARGETS = ["PyroProps.C17", "PyroProps.C17Ast"]
-AUDIT_FILES = ["PyroModel/Bytes.lean", "PyroModel/SockIO.lean", "PyroModel/PyIR.lean", "PyroModel/Gen/C17.lean", "PyroProps/C17.lean",
+LEAN_PROOF_TARGETS = ["PyroProps.C17", "PyroProps.C17Ast", "PyroProps.C17Src"]
+AUDIT_FILES = ["PyroModel/Bytes.lean", "PyroModel/SockIO.lean", "PyroModel/SockIODelays.lean", "PyroProps/C17Src.lean", "PyroModel/PyIR.lean", "PyroModel/Gen/C17.lean", "PyroProps/C17.lean",
                "PyroProps/C17Ast.lean"]
 THEOREMS = ["Pyro.C17.C17_recv_exact", "Pyro.C17.C17_recv_fail", "Pyro.C17.C17_recv_no_reorder",
             "Pyro.C17.C17_recv_total", "Pyro.C17.C17_send", "Pyro.C17.C17_send_total",
             "Pyro.C17.C17_gen_retry_set", "Pyro.C17.C17_gen_cap",
             # receive_data / send_data transcribed from the source on every run (py2ir.py) = the model, for all inputs
             "Pyro.C17Ast.recv_translated", "Pyro.C17Ast.send_translated", "Pyro.C17Ast.C17_source_recv_outcomes",
-            "Pyro.C17Ast.C17_source_recv_exact", "Pyro.C17Ast.C17_source_recv_fail", "Pyro.C17Ast.C17_source_send"]
-SUITES = ["recv", "send"]
+            "Pyro.C17Ast.C17_source_recv_exact", "Pyro.C17Ast.C17_source_recv_fail", "Pyro.C17Ast.C17_source_send",
+            # round 5: __retrydelays transcribed by harness/props/c17_tr.py = the documented back-off sequence, for every k;
+            # the loops with their sleeps counted; a non-blocking send over partial writes and retryable errors is complete
+            "Pyro.C17Src.C17_gen_delay_unit", "Pyro.C17Src.C17_retrydelays_translated",
+            "Pyro.C17Src.C17_source_backoff_never_exhausted", "Pyro.C17Src.C17_source_backoff_sequence",
+            "Pyro.C17Src.C17_sleeps_erase_recv", "Pyro.C17Src.C17_sleeps_erase_send",
+            "Pyro.C17Src.C17_recv_sleeps_exact", "Pyro.C17Src.C17_send_sleeps_exact", "Pyro.C17Src.C17_source_sleeps",
+            "Pyro.C17Src.C17_send_nonblocking_complete", "Pyro.C17Src.C17_source_send_nonblocking_complete",
+            "Pyro.C17Src.C17_send_blocking_one_call"]
+SUITES = ["recv", "send", "delays"]
 RULE = ("scripts of socket behaviours (deliver k / each retryable errno / fatal errno / timeout / eof) x request sizes "
-        "0..70000 (crossing the 60000 cap) x MSG_WAITALL on/off x blocking/non-blocking send, generated from VERIF_SEED; "
+        "0..70000 (crossing the 60000 cap) x MSG_WAITALL on/off x socket timeout None (blocking) / 0.0 / 0 / tiny / ordinary / long "
+        "(send and recv), generated from VERIF_SEED; "
         "a case is non-trivial when the real call performed >= 2 socket calls (fragmentation or a retry really happened); "
         "distinct = distinct (kind, flags, size, script, stream length)")
 ASSUMPTIONS = ["the kernel's behaviour per socket call is one of the script alphabet's events",
                "an OSError raised by a socket call carries an errno (the empty-args OSError is outside the alphabet)"]
 TRUSTED = ["fakes.ScriptedSocket stands for the OS socket",
+           "harness/props/c17_tr.py (generator -> Lean, refuses what it does not list) and float arithmetic of the back-off read as exact "
+           "decimal arithmetic; validated on every run: the first 64 values of the real generator and every delay really slept "
+           "are compared with the transcription evaluated by the driver",
            "harness/py2ir.py (one PyIR node per Python AST node) and the PyIR interpreter (lean/PyroModel/PyIR.lean) as the meaning "
            "of while/try/break/return/raise, len, min, slices and bytearray.extend; both are exercised on every run: the driver "
            "runs the interpreter on the transcription next to the model and the harness compares with the real function"]
@@ -74,6 +86,10 @@ def extract():
     CLS = {"pyroTimeout": "TimeoutError", "connClosed": "ConnectionClosedError"}
     raised_by = lambda astx: [CLS.get(c, c) for c in _re.findall(r"\.mkExc \.(\w+)", astx)]
     recv_raises, send_raises = raised_by(recv_ast), raised_by(send_ast)
+    # the back-off generator, translated from its source by the property's own translator (shallow embedding; refuses what it
+    # does not understand: c17_tr.Untranslatable -> reported by the runner as a broken tie)
+    from props import c17_tr
+    delays = c17_tr.retrydelays(socketutil)
     return f"""-- GENERATED by harness/props/c17.py from {os.path.relpath(socketutil.__file__, common.REPO)} — do not edit
 import PyroModel.PyIR
 namespace Pyro.Gen.C17
@@ -95,6 +111,9 @@ def recvCaps : List Nat := {caps}
 def recvRaises : List String := {json.dumps(recv_raises)}
 def sendRaises : List String := {json.dumps(send_raises)}
 end Pyro.Gen.C17
+/-! `__retrydelays()` as it is written now (harness/props/c17_tr.py): prefix evaluated, loop body as a function of its locals -/
+namespace Pyro.Gen.C17.Src
+{delays["lean"]}end Pyro.Gen.C17.Src
 """
 
 
@@ -163,8 +182,31 @@ def _concretise(rng, evs, retries):
     return out
 
 
-def _real_recv(socketutil, errors, waitall, size, stream, script):
-    sock = fakes.ScriptedSocket(stream, script)
+# socket configurations: gettimeout() of the scripted socket.  None = blocking; 0.0 / 0 = setblocking(False) (falsy but NOT blocking:
+# send_data must take the manual loop); tiny, ordinary and long timeouts = timeout mode.
+TIMEOUTS_NONBLOCKING = [0.0, 0.0, 0, 1e-9, 0.001, 0.05, 1.0, 1.0, 5.0, 300.0]
+
+
+def _timeout_of(c):
+    """the socket's timeout of a case (cases written before round 5 carry only `blocking`)"""
+    if "timeout" in c:
+        t = c["timeout"]
+        return float(t) if isinstance(t, str) else t      # replay files carry floats as their repr (common.jsonable)
+    if c["kind"] == "send":
+        return None if c["blocking"] else 1.0
+    return None
+
+
+def _writes_suffice(script, n):
+    """the partial writes of the script, taken in order, accept n bytes in total"""
+    for e in script:
+        if e[0] == "d":
+            n -= min(e[1], n)
+    return n == 0
+
+
+def _real_recv(socketutil, errors, waitall, size, stream, script, timeout=None):
+    sock = fakes.ScriptedSocket(stream, script, timeout=timeout)
     old = socketutil.USE_MSG_WAITALL
     socketutil.USE_MSG_WAITALL = waitall
     try:
@@ -185,8 +227,8 @@ def _real_recv(socketutil, errors, waitall, size, stream, script):
     return res, sock
 
 
-def _real_send(socketutil, errors, blocking, data, script):
-    sock = fakes.ScriptedSocket(b"", script, timeout=None if blocking else 1.0)
+def _real_send(socketutil, errors, timeout, data, script):
+    sock = fakes.ScriptedSocket(b"", script, timeout=timeout)
     try:
         socketutil.send_data(sock, data)
         res = "ok"
@@ -222,10 +264,13 @@ def _cases(ctx, name, n):
         if kind == "recv":
             avail = rng.choice([size, size, size + rng.randint(0, 9), max(0, size - rng.randint(1, 5)), rng.randint(0, size + 3)])
             cases.append({"kind": "recv", "waitall": rng.random() < 0.5, "size": size, "avail": avail,
-                          "script": evs, "sseed": rng.getrandbits(32)})
+                          "script": evs, "sseed": rng.getrandbits(32),
+                          "timeout": None if rng.random() < 0.4 else rng.choice(TIMEOUTS_NONBLOCKING)})
         else:
-            cases.append({"kind": "send", "blocking": rng.random() < 0.3, "size": size, "script": evs,
-                          "sseed": rng.getrandbits(32)})
+            blocking = rng.random() < 0.3
+            cases.append({"kind": "send", "blocking": blocking, "size": size, "script": evs,
+                          "sseed": rng.getrandbits(32),
+                          "timeout": None if blocking else rng.choice(TIMEOUTS_NONBLOCKING)})
     return cases
 
 
@@ -238,21 +283,22 @@ def _run(ctx, name, n, do_model):
     common.repo_on_path()
     from Pyro5 import socketutil, errors
     realtime = socketutil.time
-    socketutil.time = fakes.NoSleep(realtime)
+    nosleep = socketutil.time = fakes.NoSleep(realtime)
     retries = list(socketutil.ERRNO_RETRIES)
     try:
         cases = _cases(ctx, name, n)
-        lines, reals = [], []
+        lines, reals, slepts = [], [], []
         import random
         for c in cases:
+            nosleep.slept = []
             rng = random.Random(c["sseed"])
             script = _concretise(rng, [tuple(e) for e in c["script"]], retries)
             if c["kind"] == "recv":
                 stream = _stream(c["sseed"], c["avail"])
-                res, sock = _real_recv(socketutil, errors, c["waitall"], c["size"], stream, script)
+                res, sock = _real_recv(socketutil, errors, c["waitall"], c["size"], stream, script, _timeout_of(c))
                 tag, data = res
-                real = "%s %s %d %d" % (tag, "none" if (tag == "closed" and data is None) else ("-" if data is None else hx(data)),
-                                        len(stream) - sock.pos, sock.left())
+                real = "%s %s %d %d s%d" % (tag, "none" if (tag == "closed" and data is None) else ("-" if data is None else hx(data)),
+                                            len(stream) - sock.pos, sock.left(), len(nosleep.slept))
                 lines.append("recv %d %d %s %s" % (c["waitall"], c["size"], hx(stream), _script_str(script)))
                 # ---- D: the property itself, on the real code
                 ctx.evaluations += 1
@@ -290,9 +336,12 @@ def _run(ctx, name, n, do_model):
                     ctx.fail("recv-benign-failed", "a script with only deliveries and retryable errors ended in %s" % tag, c)
             else:
                 data = _stream(c["sseed"], c["size"])
-                res, sock = _real_send(socketutil, errors, c["blocking"], data, script)
-                real = "%s %s %d" % (res, hx(sock.accepted), sock.left())
-                lines.append("send %d %s %s" % (c["blocking"], hx(data), _script_str(script)))
+                tmo = _timeout_of(c)
+                res, sock = _real_send(socketutil, errors, tmo, data, script)
+                real = "%s %s %d s%d" % (res, hx(sock.accepted), sock.left(), len(nosleep.slept))
+                # the model's mode bit is "gettimeout() is None" - a timeout of 0.0 (setblocking(False)) is NOT blocking
+                lines.append("send %d %s %s" % (tmo is None, hx(data), _script_str(script)))
+                ctx.count("send-timeout:%r" % (tmo,))
                 ctx.evaluations += 1
                 ctx.count("send:" + res)
                 if len(sock.calls) >= 2:
@@ -313,15 +362,51 @@ def _run(ctx, name, n, do_model):
                 if res == "ok" and acc != data:
                     ctx.fail("send-ok-incomplete", "send_data returned but the peer accepted %d of %d bytes; script %s"
                              % (len(acc), len(data), _script_str(script)), c)
+                # "transmits every byte ... under partial writes and retryable errors": on a socket that is not in blocking mode
+                # (gettimeout() is not None - would-block / try-again are the normal answers of the kernel there) a script made of
+                # partial writes and retryable errors only, with enough writes, must get the whole buffer across
+                benign = all(e[0] == "r" or (e[0] == "p" and e[3]) or (e[0] == "d" and e[1] > 0) for e in script)
+                if tmo is not None and benign and _writes_suffice(script, len(data)) and res != "ok":
+                    ctx.fail("send-benign-failed", "on a socket with timeout %r a script with only partial writes and retryable errors "
+                             "ended in %s after %d of %d bytes; script %s" % (tmo, res, len(acc), len(data), _script_str(script)), c)
             reals.append(real)
+            slepts.append(list(nosleep.slept))
+            # the real time.sleep raises ValueError / TypeError / OverflowError for a delay that is negative, not a number or not
+            # finite, and that exception would leave the transfer function in place of data or one of the two documented errors
+            for d in nosleep.slept:
+                if not (isinstance(d, (int, float)) and not isinstance(d, bool) and 0 <= d < float("inf")):
+                    ctx.fail("backoff-invalid-delay", "%s slept %r after a retryable error (time.sleep raises for it); delays slept: %r; script %s"
+                             % (c["kind"], d, nosleep.slept[:12], _script_str(script)), c)
+                    break
             if len(ctx.samples) < 5 and len(sock.calls) >= 3 and c["size"] < 40:
                 ctx.sample({"case": c, "real": real})
         if do_model:
-            outs = common.run_driver("drv_c17", lines)
+            ndel = max([64] + [len(x) + 1 for x in slepts])
+            outs = common.run_driver("drv_c17", lines + ["delays %d" % ndel])
             ctx.corr_cases += len(lines)
             for c, l, r, m in zip(cases, lines, reals, outs):
                 if r != m:
                     ctx.mismatch(c["kind"], {"line": l if len(l) < 600 else l[:600] + "...", "case": c}, r[:300], m[:300])
+            # ---- the back-off: transcription (evaluated by the driver) against the real generator and against every delay slept
+            dl = outs[len(lines)].split()
+            if len(dl) != 2 or not dl[0].isdigit():
+                ctx.mismatch("delays", {"line": "delays %d" % ndel}, "<den> <values>", outs[len(lines)][:300])
+            else:
+                den = int(dl[0])
+                model = [None if v == "stop" else int(v) / den for v in dl[1].split(",")]
+                same = lambda a, b: a is not None and b is not None and isinstance(a, (int, float)) and abs(a - b) <= 1e-9
+                import inspect, itertools
+                gens = [o for nme, o in vars(socketutil).items() if inspect.isgeneratorfunction(o)
+                        and nme.lstrip("_").lower() in ("retrydelays", "retry_delays")]
+                real = list(itertools.islice(gens[0](), 64)) if len(gens) == 1 else []
+                real += [None] * (64 - len(real))
+                ctx.corr_cases += 1
+                if not all(same(a, b) for a, b in zip(real, model)):
+                    ctx.mismatch("delays", {"line": "delays 64"}, repr(real[:12]), repr(model[:12]))
+                for c, sl in zip(cases, slepts):
+                    if not all(same(a, b) for a, b in zip(sl, model)):
+                        ctx.mismatch("delays", {"case": c}, repr(sl[:12]), repr(model[:len(sl)][:12]))
+                        break
     finally:
         socketutil.time = realtime
 
@@ -345,18 +430,27 @@ def replay(ctx, case):
     common.repo_on_path()
     from Pyro5 import socketutil, errors
     import random
-    socketutil.time = fakes.NoSleep(socketutil.time)
+    nosleep = socketutil.time = fakes.NoSleep(socketutil.time)
     rng = random.Random(c["sseed"])
     script = _concretise(rng, [tuple(e) for e in c["script"]], list(socketutil.ERRNO_RETRIES))
     if c["kind"] == "recv":
         stream = _stream(c["sseed"], c["avail"])
-        res, sock = _real_recv(socketutil, errors, c["waitall"], c["size"], stream, script)
+        res, sock = _real_recv(socketutil, errors, c["waitall"], c["size"], stream, script, _timeout_of(c))
         print("receive_data(size=%d) over script %s -> %s, %r ; expected prefix %r" % (c["size"], _script_str(script), res[0], res[1], stream[:c["size"]]))
-        bad = res[0] == "ok" and res[1] != stream[:c["size"]]
+        bad = (res[0] == "ok" and res[1] != stream[:c["size"]]) or res[0].startswith("exc:")
     else:
         data = _stream(c["sseed"], c["size"])
-        res, sock = _real_send(socketutil, errors, c["blocking"], data, script)
-        print("send_data over script %s -> %s, accepted %r of %r" % (_script_str(script), res, bytes(sock.accepted), data))
-        bad = (res == "ok" and bytes(sock.accepted) != data) or not data.startswith(bytes(sock.accepted))
+        tmo = _timeout_of(c)
+        res, sock = _real_send(socketutil, errors, tmo, data, script)
+        print("send_data on a socket with timeout %r over script %s -> %s, accepted %r of %r" % (tmo, _script_str(script), res, bytes(sock.accepted)[:48], data[:48]))
+        benign = all(e[0] == "r" or (e[0] == "p" and e[3]) or (e[0] == "d" and e[1] > 0) for e in script)
+        bad = ((res == "ok" and bytes(sock.accepted) != data) or not data.startswith(bytes(sock.accepted))
+               or (tmo is not None and benign and _writes_suffice(script, len(data)) and res != "ok"))
+    if c["kind"] == "send" and res.startswith("exc:"):
+        bad = True
+    wrong = [d for d in nosleep.slept if not (isinstance(d, (int, float)) and not isinstance(d, bool) and 0 <= d < float("inf"))]
+    if wrong:
+        print("delays handed to time.sleep: %r - time.sleep raises for %r" % (nosleep.slept[:12], wrong[0]))
+        bad = True
     print("VIOLATION reproduced" if bad else "not reproduced")
     return 1 if bad else 0
